@@ -9,6 +9,17 @@ VERIF = os.path.dirname(os.path.dirname(os.path.abspath(__file__)))
 TECH = 'Lean 4 theorems on a hand-written model + differential correspondence check + property probe'
 NOTE = 'Trusted: Lean kernel + {propext, Classical.choice, Quot.sound} (audited per theorem on every run); the hand-written model is tied to the C++ by a seeded differential test, not by proof; '
 CLAIMED = {
+    'C04': ('proof', TECH,
+            'For every SVD oracle meeting the contract (U, V orthogonal, S diagonal non-negative descending, A = U S V^T), any dimension and both '
+            'point sizes: the linear part is a proper rotation (R^T R = 1, det R = 1 exactly, with the determinant correction); exact recovery '
+            'of the rigid motion when the source scatter has rank >= d-1 (coplanar 3D / collinear 2D included; via uniqueness of the PSD '
+            'square root); every source is mapped onto its target; invariance under permutation of the correspondences, point '
+            'representation and isotropic preconditioning; least-squares optimality among proper rigid motions for d = 2 and 3. '
+            '17 theorems in RomeaProofs/Properties/C04.lean. Differential (driver: one-sided Jacobi SVD in Lean Float) within 1e-9 / 1e-4 on '
+            'all eight point types; probe compares with an independent Kabsch/Horn solution in long double.',
+            NOTE + 'Eigen\'s JacobiSVD is an oracle parameter (contract residual monitored on every call); optimality for d > 3 only under an '
+            'unproved trace bound (not instantiated by the code); rounding and float covered by the tie only.',
+            'DESIGN.md section 6, C04'),
     'C15': ('proof', TECH,
             'Refinement to an abstract sliding window, for any number of axes, sizes, offsets and history lengths (unbounded, strictly '
             'stronger than the property\'s bounded-exhaustive quantifier): translate keeps well-formedness and get after translate = '
